@@ -141,7 +141,9 @@ fn gen_events(rng: &mut Rng, timed: bool) -> String {
                 // lm0 / lm1: If-Modified-Since = the last-modified of the stored entry (as a hit reported it) / one second
                 // before it — the boundary of "not older, to the second"; when no hit was seen yet they mean new / old
                 let ims = *rng.pick(&["none", "none", "none", "none", "new", "old", "lm0", "lm1"]);
-                format!("R:{t}:{m}:{p}:{}:{ims}:{}", rng.below(4), *rng.pick(&["a", "a", "b", "b", "c"]))
+                // one request in twelve carries a reversed range (`bytes=30-20`): refused before anything is looked up or computed
+                let rr = if rng.chance(1, 12) { ":rr" } else { "" };
+                format!("R:{t}:{m}:{p}:{}:{ims}:{}{rr}", rng.below(4), *rng.pick(&["a", "a", "b", "b", "c"]))
             }
         }
     }))
@@ -173,6 +175,8 @@ impl Group for History {
         v.push("c03.hist 1 0 [R:5:G:13:2:none:a,R:10:G:13:3:none:a,K:13:2,R:15:G:13:2:none:a,R:20:G:13:3:none:a]".to_owned());
         v.push("c03.hist 1 0 [R:5:G:13:3:none:a,R:10:G:13:2:none:a,K:13:3,R:15:G:13:3:none:a,R:20:G:13:2:none:a]".to_owned());
         v.push("c03.hist 1 0 [R:5:G:0:0:none:a,R:10:O:0:0:none:a,R:15:T:0:0:none:a,R:20:H:0:0:none:a,R:25:G:3:0:none:a,R:30:O:3:0:none:a]".to_owned());
+        // a reversed range on a warm entry, GET and HEAD
+        v.push("c03.hist 1 0 [R:5:G:0:0:none:a,R:10:G:0:0:none:a,R:15:G:0:0:none:a:rr,R:20:H:0:0:none:a:rr,R:25:G:0:0:none:a]".to_owned());
         // a handler that rewrites the request's URI to another page's: neither page may end up with the other's entry
         v.push("c03.hist 1 0 [R:5:G:19:0:none:a,R:10:G:0:0:none:a,R:15:G:19:0:none:a,R:20:G:0:0:none:a]".to_owned());
         v.push("c03.hist 1 0 [R:5:G:0:2:none:a,R:10:G:19:2:none:a,R:15:G:0:2:none:a,R:20:G:19:3:none:a,R:25:H:0:0:none:a]".to_owned());
@@ -219,12 +223,15 @@ impl Group for History {
                     let typed = match (routed, f[6]) { ("/index.html", "a") => "/", ("/d/index.html", "a") => "/d/", (r, _) => r };
                     let uri = match QUERIES[f[4].parse::<usize>().unwrap()] { None => typed.to_owned(), Some(q) => format!("{typed}?{q}") };
                     let qi: usize = f[4].parse().unwrap();
-                    let tracked = !is_vary(pi) && matches!(f[2], "G" | "H");
+                    let tracked = !is_vary(pi) && matches!(f[2], "G" | "H") && f.get(7) != Some(&"rr");
                     let entry_lm: Option<time::OffsetDateTime> = if tracked { hit_lm.get(&(pi, qi)).copied() } else { None };
                     let mk = || {
                         let mut b = Request::builder().method(match f[2] { "G" => "GET", "H" => "HEAD", "O" => "OPTIONS", "T" => "TRACE", _ => "POST" }).uri(&uri);
                         if is_vary(pi) && class_of(f[6]) > 0 {
                             b = b.header("x-lang", if class_of(f[6]) == 1 { "sv-SE" } else { "de" });
+                        }
+                        if f.get(7) == Some(&"rr") {
+                            b = b.header("range", "bytes=30-20");
                         }
                         if f[5] != "none" {
                             let when = match (f[5], entry_lm) {
@@ -350,6 +357,13 @@ impl Group for History {
             }
             let o = outs.get(oi)?.clone();
             oi += 1;
+            if f.get(7) == Some(&"rr") {
+                // a reversed range is answered 416 whatever is cached (the statement of C09; for C03: what the uncached server says)
+                if !o.starts_with("416") {
+                    return Some((format!("range-hit:{line}"), format!("a request with `range: bytes=30-20` was answered {o}, not with the 416 page")));
+                }
+                continue;
+            }
             let pi: usize = f[3].parse().ok()?;
             let mut t = TABLE[pi];
             if is_vary(pi) {
